@@ -202,7 +202,8 @@ def _build_input(fs, inp, name):
         return P.build_se_file(fs, os.path.join(shipped.REPO, inp["file"]))
     if k in ("image", "raster"):
         data = shipped.image_bytes(inp)
-        return P.build_skeleton(fs, data, inp.get("mirror_y", False), inp.get("reduce_amount", False))
+        return P.build_skeleton(fs, data, inp.get("mirror_y", False), inp.get("reduce_amount", False),
+                                inp.get("rescale"), inp.get("offset"))
     raise ValueError(k)
 
 
